@@ -37,6 +37,8 @@ fn text() -> BoxedStrategy<String> {
         1 => "\\PC{0,10}",
         1 => "[ -~]{0,20}",
         1 => Just("eu-wést-1".to_string()),
+        2 => crate::gen::region(),
+        2 => crate::gen::service(),
     ]
     .boxed()
 }
